@@ -221,10 +221,11 @@ CONTRACT_ALPHA = (
     ["clone"] * 3 + ["drop"] * 5 + ["link"] * 4 + ["unlink"] * 3 + ["downgrade", "upgrade", "dropWeak", "cloneWeak",
     "storeWeak", "counts", "wcounts", "ptrEq", "unadopt", "getMut", "new", "shuffle", "store"]
 )
-RAW_ALPHA = CONTRACT_ALPHA + ["adopt"] * 3 + ["adoptSame", "unadoptSame", "take", "take", "store", "unadopt"]
+RAW_ALPHA = CONTRACT_ALPHA + ["adopt"] * 3 + ["adoptSame", "unadoptSame", "take", "take", "store", "unadopt",
+                             "tryUnwrap", "makeMut", "downgrade"]
 API_ALPHA = ["tryUnwrap"] * 3 + ["makeMut"] * 3 + ["getMut", "intoRaw", "intoRaw", "fromRaw", "fromRaw", "incStrong",
              "decStrong", "decStrong", "dropValue", "clone", "drop", "drop", "downgrade", "downgrade", "cloneWeak",
-             "dropWeak", "link", "unlink", "counts", "wcounts", "upgrade"]
+             "dropWeak", "link", "unlink", "counts", "wcounts", "upgrade", "take", "store", "store"]
 NOADOPT_ALPHA = ["new", "clone", "clone", "drop", "drop", "drop", "store", "store", "take", "downgrade", "downgrade",
                  "upgrade", "upgrade", "cloneWeak", "dropWeak", "dropWeak", "storeWeak", "tryUnwrap", "dropValue",
                  "makeMut", "getMut", "intoRaw", "fromRaw", "incStrong", "decStrong", "ptrEq", "counts", "wcounts"]
